@@ -43,6 +43,16 @@ def gen_c15(rng, oracle, index, tier="quick"):
         h = g.pick_target(kinds=("prop", "cfg"))
         kind = g.handles[h]["kind"]
         r = rng.random()
+        if r < 0.1 and len(g.order) < 6:
+            # derive a new object from a live one after it has (maybe) served requests: the bridge must behave
+            # for it exactly as for a constructed one (stale cached polyhedra would be handed to the peer)
+            m = "add" if kind == "cfg" and rng.random() < 0.6 else "b64_rt"
+            op, tags = g.op_for(h, m)
+            before = len(g.ops)
+            g.emit(op, {"base": h})
+            if len(g.ops) > before:
+                g.events.append((m, "derive", ()))
+            continue
         if r < 0.3:
             m = rng.choice(BENIGN + (["ge_polyhedron", "default_prios", "leafs"] if kind == "cfg" else []) + ["evaluate"] * 4)
             op, tags = g.op_for(h, m)
@@ -87,6 +97,28 @@ def _query(ops, k, op, mask, cache):
     return engine.reference(tmp, k, mask, cache)
 
 
+def _named(ops, cr, h, depth=0):
+    """compound ids the user named for handle h (through constructions, b64 round trips and add()); None = unknown"""
+    j = cr.get(h)
+    if j is None or depth > 20:
+        return None
+    op = ops[j]
+
+    def rr(name):
+        jj = cr.get(name)
+        return ops[jj].get("recipe") if jj is not None and ops[jj]["op"] == "new" else None
+    if op["op"] == "new":
+        return sorted(R.named_ids(op["recipe"], rr))
+    if op["op"] == "call" and op["m"] == "b64_rt":
+        return _named(ops, cr, op["h"], depth + 1)
+    if op["op"] == "call" and op["m"] == "add":
+        base = _named(ops, cr, op["h"], depth + 1)
+        if base is None:
+            return None
+        return sorted(set(base) | R.named_ids(op["a"]["recipe"], rr))
+    return None
+
+
 def aux_for(ops, mask, cache):
     """for every solver request: pristine polyhedron, pristine default_prios, dump of the model"""
     cr = engine.creators(ops)
@@ -100,12 +132,7 @@ def aux_for(ops, mask, cache):
         h = op["h"]
         dump = _query(ops, k, {"op": "call", "h": h, "m": "flatten"}, mask, cache)
         top = engine.reference(ops, cr[h], mask, cache)
-        def rr(name):
-            j = cr.get(name)
-            return ops[j].get("recipe") if j is not None and ops[j]["op"] == "new" else None
-        rec = rr(h)
-        d = {"dump": top.get("obj"), "flatten": dump.get("v"),
-             "named": sorted(R.named_ids(rec, rr)) if rec is not None else None}
+        d = {"dump": top.get("obj"), "flatten": dump.get("v"), "named": _named(ops, cr, h)}
         if op["m"] == "solve":
             d["poly"] = _query(ops, k, {"op": "call", "h": h, "m": "to_ge_polyhedron",
                                         "a": {"active": True, "reduced": bool(a.get("reduce"))}}, mask, cache)
